@@ -272,6 +272,86 @@ def run_lin(c):
     return None
 
 
+ROUTE_OPS_VEC = ["set_pol", "set_mag", "copy_pol", "copy_mag"]
+ROUTE_OPS_OTHER = ["set", "copy"]
+ROUTE_INIT_VEC = ["ctor_pol", "ctor_mag", "bare"]
+ROUTE_INIT_OTHER = ["ctor", "bare"]
+MU0_SETTER = 4 * np.pi * 1e-7   # the conversion the attribute setters document (magnetization <-> polarization)
+RTOL_ROUTE = 1e-9               # covers the 1.3e-10 difference between this constant and scipy's mu_0 (known C02 finding)
+
+
+def route_cases(cls):
+    typ = lin_sources()[cls][1]
+    magnet = typ == "vec" and cls != "Dipole"
+    inits = ROUTE_INIT_VEC if magnet else ROUTE_INIT_OTHER
+    ops = ROUTE_OPS_VEC if magnet else ROUTE_OPS_OTHER
+    out = []
+    for init in inits:
+        for n in (1, 2):
+            for word in itertools.product(ops, repeat=n):
+                for ev in (False, True):
+                    for wrap in ("plain", "child"):
+                        out.append({"init": init, "word": list(word), "eval_between": ev, "wrap": wrap})
+    return out
+
+
+def run_route(c):
+    """the excitation reached through a history of constructor forms, attribute setters and copy(...) overrides - with or
+    without a field evaluation between the steps, alone or as a child of a collection - must give the field of a body that was
+    constructed with that excitation directly (f is a function of the CURRENT excitation only; no earlier value may survive in
+    derived or cached state)"""
+    import magpylib as magpy
+
+    mk, typ = lin_sources()[c["cls"]]
+    field = c["field"]
+    magnet = typ == "vec" and c["cls"] != "Dipole"
+    attr = "polarization" if magnet else ("moment" if c["cls"] == "Dipole" else "current")
+    vals = [np.array(VECS[0]), np.array(VECS[2]), np.array(VECS[6])] if typ == "vec" else [2.5, -0.75, 4.0]
+    base = mk(vals[0])
+    geo = {k: getattr(base, k) for k in ("dimension", "diameter", "vertices", "faces") if getattr(base, k, None) is not None}
+    cls = type(base)
+    if c["init"] in ("ctor_pol", "ctor"):
+        o = base
+    elif c["init"] == "ctor_mag":
+        o = cls(magnetization=vals[0] / MU0_SETTER, **geo)
+    else:
+        o = cls(**geo)
+    final = vals[0] if c["init"] != "bare" else None
+
+    def ev(x):
+        if c["eval_between"] and final is not None:
+            getattr(x, "get" + field)(LIN_OBS)
+
+    import warnings
+    with warnings.catch_warnings():
+        warnings.simplefilter("ignore")
+        for k, op in enumerate(c["word"]):
+            ev(o)
+            v = vals[1] if k < len(c["word"]) - 1 else vals[2]
+            if op in ("set_pol", "set"):
+                setattr(o, attr, v)
+            elif op == "set_mag":
+                o.magnetization = v / MU0_SETTER
+            elif op in ("copy_pol", "copy"):
+                o = o.copy(**{attr: v})
+            elif op == "copy_mag":
+                o = o.copy(magnetization=v / MU0_SETTER)
+            final = v
+        tgt = magpy.Collection(magpy.current.Circle(diameter=3, current=0.0), o) if c["wrap"] == "child" else o
+        got = np.asarray(getattr(tgt, "get" + field)(LIN_OBS))
+        exp = np.asarray(getattr(mk(final), "get" + field)(LIN_OBS))
+    sc = max(float(np.max(np.abs(exp))), 1e-300)
+    err = float(np.max(np.abs(got - exp))) / sc
+    if not err <= RTOL_ROUTE:
+        return f"route {c['init']}>{'>'.join(c['word'])}: field is not that of a body constructed with the final excitation rel={err:.3g}"
+    # the attribute pair itself must describe the final excitation
+    if magnet:
+        p, m = np.asarray(o.polarization, float), np.asarray(o.magnetization, float)
+        if np.max(np.abs(p - final)) > 1e-12 * np.max(np.abs(final)) or np.max(np.abs(m * MU0_SETTER - final)) > 1e-12 * np.max(np.abs(final)):
+            return f"route {c['init']}>{'>'.join(c['word'])}: attributes polarization={p.tolist()} magnetization*mu0={(m * MU0_SETTER).tolist()} are not the final excitation {final.tolist()}"
+    return None
+
+
 def run_singular(c):
     """observers at points where ONE source of the list has no finite field (Dipole position, Triangle / Tetrahedron vertex):
     the sum over sources is then not finite either - sumup and collections must not hide it"""
@@ -311,6 +391,8 @@ def work(c):
     try:
         if c["part"] == "sing":
             return run_singular(c)
+        if c["part"] == "lin" and c["kind"] == "route":
+            return run_route(c)
         return run_arr(c) if c["part"] == "arr" else run_lin(c)
     except Exception as e:
         import traceback
@@ -350,6 +432,8 @@ def enumerate_cases(tier):
                 for j in range(len(VECS)):
                     if j != i:
                         cases.append({"part": "lin", "kind": "add", "cls": cls, "field": field, "i": i, "j": j})
+            for rc in route_cases(cls):
+                cases.append({"part": "lin", "kind": "route", "cls": cls, "field": field, **rc})
     return cases
 
 
@@ -357,6 +441,8 @@ def vkey(c, r):
     if c["part"] == "sing":
         return f"C05|singular-observer|{c['form']}|{c['field']}|{r.split(' ')[0]}"
     if c["part"] == "lin":
+        if c["kind"] == "route":
+            return f"C05|excitation-route|{c['cls']}|{c['field']}|{c['init']}>{'>'.join(c['word'])}|{c['wrap']}"
         return f"C05|linearity|{c['cls']}|{c['field']}|{c['kind']}" + (f"|alpha={c['alpha']}" if c["kind"] == "scale" else "")
     ncoll = sum(1 for k in c["kinds"] if k != "S" and k != "D")
     h = "history" if c.get("history") else "static"
